@@ -6,14 +6,17 @@
    `holds s` = the property decided on a settled state (quiescent, both ACTIVE, next_in of each =
    next_out of the other, each application received exactly the peer's accepted sends, in order).
 
-   THE PROPERTY AT FULL STRENGTH would be
+   THE PROPERTY AT FULL STRENGTH is
        forall l : list action, exists f0, forall fuel, f0 <= fuel -> holds (settle fuel (run net0 l)) = true.
-   It is FALSE for the faithful model (and for the code): C07_all_schedules_refuted.
-   What is PROVED is the single-break family, for every n and every k <= n (induction; unbounded), in
-   each direction separately: C07_single_break (A sends), C07_single_break_B_to_A (B sends).  Schedules of that family are outside the known-finding class
-   C07-break-loses-resend-reply (`reply_in_flight` at the break), the refutation witnesses are inside.
-   General interleavings are not proved; they are explored by harness/c07.py (model BFS with state
-   hashing + two real connection objects), which is exploration, not proof. *)
+   It is NOT proved in this generality.  What is PROVED is the single-break family, for every n and every
+   k <= n (induction; unbounded), in each direction separately: C07_single_break (A sends),
+   C07_single_break_B_to_A (B sends).  Before the D12 repair of _process_resend (journal rewind /
+   truncation while servicing a ResendRequest) the full statement was FALSE (two breaks with a resend reply in
+   flight lost messages for good); the former witnesses are now positive computed Examples
+   (C07_double_break_recovers, C07_gap_fill_lost_recovers).  General interleavings - both directions in
+   flight, events during the Logon exchange / the recovery, two or more breaks - are not proved; they are
+   explored by harness/c07.py (model BFS with exact state hashing + two real connection objects): no failing
+   state is known.  That is exploration, not proof. *)
 From Coq Require Import ZArith NArith List Bool.
 From AF Require Import Base.Sx Py.Str Fix.Session Fix.Net Lemmas.NetL.
 Import ListNotations.
@@ -25,7 +28,7 @@ Open Scope Z_scope.
    flight delivered until nothing is pending.  Then (`recovered`): the network is quiescent, both ends
    are ACTIVE, next_in of each = next_out of the other, all n sends had been accepted, B's application
    has been handed exactly m1 .. mn once and in order, nothing went the other way, and `holds` is true.
-   Also: at the break no reply to a ResendRequest is in flight (outside the known-finding class). *)
+   Also: at the break no reply to a ResendRequest is in flight. *)
 Theorem C07_single_break : forall (n k fuel : nat),
   (k <= n)%nat -> Z.of_nat n + 3 <= 9223372036854775807 -> (k + 4 <= fuel)%nat ->
   let before_break :=
@@ -63,41 +66,32 @@ Example C07_texts : texts 1 3 = [payload 1; payload 2; payload 3] /\ payload 17 
 Proof. split; reflexivity. Qed.
 Print Assumptions C07_texts.
 
-(* D13.  Second break while the replies to the ResendRequest (the retransmission with PossDupFlag and the
-   gap fill) are in flight: after the final reconnect + Logon + quiescence the accepted message m1 has
-   not been delivered, A is stuck in RESENDREQ_HANDLING with next_num_out rewound to 2, B is stuck in
-   RESENDREQ_AWAITING still expecting 2.  (sched_double_break = REC dB dA sA BRK REC dB dA dA BRK) *)
-Theorem C07_double_break_refuted :
+(* D13 (repaired by the D12 fix: _process_resend no longer rewrites the journal).  Second break while the
+   replies to the ResendRequest (the retransmission with PossDupFlag and the gap fill) are in flight: after the
+   final reconnect + Logon + quiescence m1 HAS been delivered, both ends are ACTIVE, B expects 5 = A's next.
+   (sched_double_break = REC dB dA sA BRK REC dB dA dA BRK; before the repair: A stuck in RESENDREQ_HANDLING
+   with next_num_out rewound, B stuck in RESENDREQ_AWAITING, m1 lost.) *)
+Example C07_double_break_recovers :
   let before := run net0 (firstn 9 sched_double_break) in
   let n := settle 80 (run net0 sched_double_break) in
   reply_in_flight before = true
-  /\ sa n = [payload 1] /\ gb n = [] /\ quiescent n = true /\ holds n = false
-  /\ st (wa n) = ST_HANDLING /\ st (wb n) = ST_AWAITING /\ nout (wa n) = 2 /\ nin (wb n) = 2.
-Proof. exact double_break_refuted. Qed.
-Print Assumptions C07_double_break_refuted.
+  /\ sa n = [payload 1] /\ gb n = [Some (payload 1)] /\ quiescent n = true /\ holds n = true
+  /\ st (wa n) = ST_ACTIVE /\ st (wb n) = ST_ACTIVE /\ nout (wa n) = 5 /\ nin (wb n) = 5.
+Proof. exact double_break_recovers. Qed.
+Print Assumptions C07_double_break_recovers.
 
-(* Same class, silent variant: a gap fill is lost; the journaled gap fill is later read as covering one
-   number, the application message behind it is skipped: both ends ACTIVE, numbers match, m1 never
-   delivered.  (sched_silent_loss = REC BRK REC dB dA dA sA BRK) *)
-Theorem C07_silent_loss_refuted :
-  let before := run net0 (firstn 7 sched_silent_loss) in
-  let n := settle 80 (run net0 sched_silent_loss) in
+(* The former silent loss: a gap fill is lost, an application message is sent behind it and lost too.
+   (sched_gap_fill_lost = REC BRK REC dB dA dA sA BRK; before the repair: both ACTIVE, numbers matching,
+   m1 never delivered.) *)
+Example C07_gap_fill_lost_recovers :
+  let before := run net0 (firstn 7 sched_gap_fill_lost) in
+  let n := settle 80 (run net0 sched_gap_fill_lost) in
   reply_in_flight before = true
-  /\ sa n = [payload 1] /\ gb n = [] /\ quiescent n = true /\ holds n = false
+  /\ sa n = [payload 1] /\ gb n = [Some (payload 1)] /\ quiescent n = true /\ holds n = true
   /\ st (wa n) = ST_ACTIVE /\ st (wb n) = ST_ACTIVE
   /\ nin (wa n) = nout (wb n) /\ nin (wb n) = nout (wa n).
-Proof. exact silent_loss_refuted. Qed.
-Print Assumptions C07_silent_loss_refuted.
-
-(* hence the property does not hold for all schedules: the settled state is quiescent (more fuel changes
-   nothing) and the property is false in it *)
-Theorem C07_all_schedules_refuted :
-  exists l, quiescent (settle 80 (run net0 l)) = true /\ holds (settle 80 (run net0 l)) = false.
-Proof.
-  exists sched_double_break.
-  destruct double_break_refuted as [_ [_ [_ [Q [H _]]]]]. split; assumption.
-Qed.
-Print Assumptions C07_all_schedules_refuted.
+Proof. exact gap_fill_lost_recovers. Qed.
+Print Assumptions C07_gap_fill_lost_recovers.
 
 (* non-vacuity, by computation in the kernel: n = 3, k = 2 (numbers after recovery: B expects 6 = A's next) *)
 Example C07_family_instance :
